@@ -3,7 +3,7 @@ import ast
 
 from sa.core import (AnalysisError, FUNC, assignments, call_name, class_attr, const, dotted, enclosing, enclosing_func,
                      enclosing_stmt, is_attr, is_name, is_self_attr, literal, norm, params, parent, walk_local, names_in, ancestors)
-from sa.guards import facts, split, enclosing_loops
+from sa.guards import canon_facts, canon_test, facts, split, enclosing_loops
 from sa import events
 
 PROP = "C03"
@@ -239,9 +239,9 @@ def run(cx):
             and isinstance(cut.value.slice.upper.op, ast.Add) and isinstance(cut.value.slice.upper.left, ast.Name) and const(cut.value.slice.upper.right, int) and cut.value.slice.upper.right.value == 1
         if ok:
             rp = cut.value.slice.upper.left.id
-            g = {(norm(e), pol) for e, pol in facts(sw[0])}
+            g = canon_facts(sw[0])      # spelling-free: rp >= 0 / not rp < 0 / 0 <= rp ; rp > -1 ; rp != -1
             in_for = any(isinstance(l, ast.For) and is_name(l.target, rp) for l in enclosing_loops(sw[0]))
-            ok = in_for or (f"{rp} >= 0", True) in g or (f"{rp} < 0", False) in g or (f"{rp} > -1", True) in g or (f"{rp} != -1", True) in g
+            ok = in_for or ("<", rp, "0", False) in g or ("<", "-1", rp, True) in g or ("==", *sorted(("-1", rp)), False) in g
     cx.ob("R03c", sw[0] if sw else mw, ok, "roll-back cuts the stack at the entry with an untried alternative and advances it" if ok else "roll-back does not truncate to the rollback point and switch its alternative")
     if rp is not None and any(isinstance(l, ast.For) and is_name(l.target, rp) for l in ast.walk(mw)):
         # the roll-back point is the variable of a `for` over a descending range: terminates; the cut happens under the test
@@ -308,9 +308,24 @@ def run(cx):
                   "the helper returns a stack position whose entry may have no untried alternative")
         else:
             for w in scans:
-                v = norm(w.test.left) if isinstance(w.test, ast.Compare) else None
-                dec = any(isinstance(s_, ast.AugAssign) and norm(s_.target) == v and isinstance(s_.op, ast.Sub) and const(s_.value, int) and s_.value.value >= 1 and parent(s_) is w for s_ in w.body)
-                okw = v is not None and isinstance(w.test.ops[0], ast.GtE) and dec
+                # `while v >= 0` (however spelled) whose every pass through the body that comes back to the test has decremented v
+                ct = canon_test(w.test)
+                v = next((a for k_, a, b, pol in ct if k_ == "<" and b == "0" and not pol), None) or next((b for k_, a, b, pol in ct if k_ == "<" and a == "-1" and pol), None)
+
+                def dec_all(stmts):
+                    for s_ in stmts:
+                        if isinstance(s_, ast.AugAssign) and norm(s_.target) == v and isinstance(s_.op, ast.Sub) and const(s_.value, int) and s_.value.value >= 1:
+                            return True
+                        if isinstance(s_, (ast.Break, ast.Return, ast.Raise)):
+                            return True         # does not come back
+                        if isinstance(s_, ast.Continue):
+                            return False
+                        if isinstance(s_, ast.If) and s_.orelse and dec_all(s_.body) and dec_all(s_.orelse):
+                            return True
+                        if any(isinstance(x, ast.Continue) for x in ast.walk(s_)):
+                            return False        # may come back to the test from inside this statement, before the decrement
+                    return False
+                okw = v is not None and len(ct) == 1 and dec_all(w.body)
                 cx.ob("R03c", w, okw, "the roll-back scan moves strictly down the stack" if okw else "roll-back scan may not terminate")
             brk = [b for b in ast.walk(mw) if isinstance(b, ast.Break) and scans and enclosing_loops(b)[0] is scans[0]]
             if len(brk) != 1:
